@@ -1,3 +1,3 @@
 #!/bin/sh
 # regenerate every coq/gen/*.v from /repo's current working tree
-cd /repo && for t in /verif/tools/translate/gen_*.py; do PYTHONPATH=/repo/py FORMAK_VERIF=1 PYTHONHASHSEED=0 MPLBACKEND=Agg /venv/bin/python $t /repo /verif/coq/gen || echo "translator $t failed closed"; done
+D=$(cd "$(dirname "$0")/.." && pwd); cd /repo && for t in $D/tools/translate/gen_*.py; do PYTHONPATH=/repo/py FORMAK_VERIF=1 PYTHONHASHSEED=0 MPLBACKEND=Agg /venv/bin/python $t /repo $D/coq/gen || echo "translator $t failed closed"; done
